@@ -92,12 +92,17 @@ class RustMachine:
 class PyMachine:
     impl = "py"
 
-    def __init__(self, kb_irq=True, press_th=None):
+    def __init__(self, kb_irq=True, press_th=None, fast=False, trace=False):
+        """fast: the emulator's minimal stepping path (`fast_mode`); trace: constructed with the perfetto / call-stack tracing
+        switched on (observers only - no file is written unless a trace is started).  Both are configurations of the same machine:
+        every architectural clause applies to them unchanged."""
         from pce500.emulator import PCE500Emulator
         rom = bytearray(0x40000)
         rom[0x3FFFA:0x3FFFD] = bytes(VECTOR_BYTES)
         rom[0x3FFFD:0x40000] = bytes([MAIN & 0xFF, (MAIN >> 8) & 0xFF, (MAIN >> 16) & 0xFF])
-        self.emu = PCE500Emulator(trace_enabled=False, perfetto_trace=False)
+        self.emu = PCE500Emulator(trace_enabled=bool(trace), perfetto_trace=bool(trace))
+        if fast:
+            self.emu.fast_mode = True
         self.emu.load_rom(bytes(rom))
         from sc62015.pysc62015.emulator import RegisterName
         self.R = RegisterName
